@@ -16,6 +16,7 @@ import (
 	secp256k1 "github.com/bytemare/secp256k1"
 	"github.com/bytemare/secp256k1/internal/verif/conc"
 	"github.com/bytemare/secp256k1/internal/verif/ev"
+	"github.com/bytemare/secp256k1/internal/verif/prelude"
 	"github.com/bytemare/secp256k1/internal/verif/verifrt"
 )
 
@@ -98,6 +99,8 @@ func main() {
 		fmt.Fprintln(os.Stderr, "usage: vrace C16race   (replay: re-run the check; race reports are not tied to a schedule)")
 		os.Exit(2)
 	}
+
+	prelude.HostileCaller()
 
 	r := ev.New("C16", "C16race", verifrt.Variant+"+race")
 	logPrefix := os.Getenv("VERIF_RACELOG")
